@@ -15,6 +15,7 @@ def run(ctx):
                 "LoadFromDisk (store -> restore -> more operations -> Close); every malloc/free is an event and TLC (MemAPI.tla) requires at Close: "
                 "allocated = freed, no block freed twice, no unknown pointer freed")
     nwriters.model_check(ctx, T)
+    nwriters.conformance(ctx, T, 71)
     plan = [("contended writers", 300, False), ("large", 80, True)]
     if T:
         plan = [("contended writers", 3000, False), ("large", 800, True)]
